@@ -511,6 +511,11 @@ pub enum CycFlavor {
     Mixed,
     /// one component of plain (no recovery) functions whose ring is closed iff `ins[0] & 1 != 0`
     NoRecovery,
+    /// ONE large fixpoint component (5–8 members, every member with 1–2 extra edges, duplicate
+    /// callees allowed: a member that calls the same callee twice re-claims a transferred query)
+    /// between a single base node and a single top node; meant for 5–6 threads (`vh conc` c18/c19,
+    /// generator version 2)
+    Wide,
 }
 
 /// Program with 1–2 strongly connected components (ring + extra edges = nested cycles) on top of a
@@ -518,7 +523,8 @@ pub enum CycFlavor {
 pub fn gen_cyclic(rng: &mut Rng, flavor: CycFlavor) -> Program {
     let n_inputs = 2 + rng.usize(2);
     let mut nodes: Vec<Node> = Vec::new();
-    let n_base = 1 + rng.usize(3);
+    let wide = flavor == CycFlavor::Wide;
+    let n_base = if wide { 1 } else { 1 + rng.usize(3) };
     for i in 0..n_base {
         let callable: Vec<usize> = (0..i).collect();
         let depth = 1 + rng.usize(2);
@@ -527,15 +533,15 @@ pub fn gen_cyclic(rng: &mut Rng, flavor: CycFlavor) -> Program {
             body: gen_expr(rng, depth, n_inputs, &callable, false, 40),
         });
     }
-    let n_comp = if flavor == CycFlavor::NoRecovery { 1 } else { 1 + rng.usize(2) };
+    let n_comp = if flavor == CycFlavor::NoRecovery || wide { 1 } else { 1 + rng.usize(2) };
     let mut members_all: Vec<usize> = Vec::new();
     for _ in 0..n_comp {
-        let size = 2 + rng.usize(3);
+        let size = if wide { 5 + rng.usize(4) } else { 2 + rng.usize(3) };
         let first = nodes.len();
         let members: Vec<usize> = (first..first + size).collect();
         let lower: Vec<usize> = (0..first).collect();
         let comp_kind = match flavor {
-            CycFlavor::Fix => Kind::Fix,
+            CycFlavor::Fix | CycFlavor::Wide => Kind::Fix,
             CycFlavor::Fb => Kind::Fb,
             CycFlavor::Mixed => {
                 if rng.chance(1, 2) {
@@ -570,7 +576,7 @@ pub fn gen_cyclic(rng: &mut Rng, flavor: CycFlavor) -> Program {
                 Expr::Or(Box::new(own), Box::new(ring))
             };
             // extra edges inside the component: nested cycles, several heads
-            let extra = rng.below(3);
+            let extra = if wide { 1 + rng.below(2) } else { rng.below(3) };
             for _ in 0..extra {
                 let other = *rng.pick(&members);
                 // without recovery only the (input-controlled) ring may close a cycle: extra
@@ -594,7 +600,7 @@ pub fn gen_cyclic(rng: &mut Rng, flavor: CycFlavor) -> Program {
         }
         members_all.extend(members);
     }
-    let n_top = 1 + rng.usize(3);
+    let n_top = if wide { 1 } else { 1 + rng.usize(3) };
     for _ in 0..n_top {
         let callable: Vec<usize> = (0..nodes.len()).collect();
         let a = Expr::Call(*rng.pick(&members_all));
